@@ -61,6 +61,7 @@ import torch
 import common
 import py2lean_obs
 import py2lean_obsval
+import py2lean_obsma
 from common import ROOT, Check, InfraError, ddmin, frac
 
 warnings.filterwarnings("ignore")
@@ -96,6 +97,11 @@ def pre_gate(chk: Check) -> None:
         py2lean_obsval.write_if_changed(_t, common.LEAN_DIR / "Gen" / "ObsValGen.lean")
     except py2lean_obsval.Unsupported:
         pass        # reported by the second gate below
+    try:
+        _t, _ = py2lean_obsma.translate(common.REPO)
+        py2lean_obsma.write_if_changed(_t, common.LEAN_DIR / "Gen" / "ObsMaGen.lean")
+    except py2lean_obsma.Unsupported:
+        pass        # reported by the third gate below
     common.translation_gate(chk, py2lean_obs, "Gen/ObsGen.lean", ["Gen.ObsGen", "Proofs.ObsGenEq", "Props.C15"],
                             "obs_channels_to_first, obs_to_tensor, maybe_add_batch_dim, get_vect_dim, "
                             "preprocess_observation: shape logic")
@@ -106,6 +112,11 @@ def pre_gate(chk: Check) -> None:
                             "maybe_add_batch_dim, apply_image_normalization, preprocess_observation leaf chain, "
                             "get_homo_id, _agent_position, assemble/disassemble_homogeneous_outputs, "
                             "stack_critic_observations: values")
+    # the multi-agent dict loops: which space is paired with which agent, group sums, group order
+    common.translation_gate(chk, py2lean_obsma, "Gen/ObsMaGen.lean",
+                            ["Gen.ObsMaGen", "Proofs.ObsMaGenEq", "Props.C15"],
+                            "MultiAgentRLAlgorithm.preprocess_observation, sum_shared_rewards, "
+                            "IPPO.preprocess_observation, IPPO.assemble_shared_inputs: dict loops")
 
 
 # findings analysed in the build round; each is probed on exactly its own input class.  A failing probe is a
@@ -1461,6 +1472,33 @@ def run_route(case):
         for a in ids:
             if not np.array_equal(dis[a].reshape(E, fw), outs[a].reshape(E, fw)):
                 problems.append(f"disassemble(assemble(x)) != x for agent {a}")
+    # the dict loops of Gen/ObsMaGen.lean (property as oracle): `sum_shared_rewards` sums exactly the rewards of each
+    # group's agents, env by env; IPPO's grouped inputs list a group's agents in `agent_ids` order whatever the order
+    # of the input dictionary
+    rew = {a: r.integers(-9, 10, (E,)).astype(np.int64) for a in present}
+    summed = M.sum_shared_rewards(st, {a: rew[a].copy() for a in keys})
+    for g in st.shared_agent_ids:
+        want_sum = sum((rew[a] for a in st.homogeneous_agents[g] if a in rew), np.zeros(E, dtype=np.int64))
+        got_sum = np.broadcast_to(np.asarray(summed.get(g, 0)), (E,))
+        if not np.array_equal(got_sum, want_sum):
+            problems.append(f"sum_shared_rewards: group {g} got {got_sum.tolist()}, the sum of its agents' rewards is "
+                            f"{want_sum.tolist()}")
+    if set(summed) != set(st.shared_agent_ids):
+        problems.append(f"sum_shared_rewards: keys {sorted(summed)} are not the groups {sorted(st.shared_agent_ids)}")
+    try:
+        from agilerl.algorithms.ippo import IPPO
+        st._agent_position = lambda a: M._agent_position(st, a)
+        grouped = IPPO.assemble_shared_inputs(st, {a: outs[a].copy() for a in keys})
+        for g in st.shared_agent_ids:
+            want_order = [a for a in ids if a in outs and a.rsplit("_", 1)[0] == g]
+            if list(grouped[g].keys()) != want_order:
+                problems.append(f"assemble_shared_inputs: group {g} lists {list(grouped[g].keys())}, agent_ids order is "
+                                f"{want_order} (input order {keys})")
+            for a in want_order:
+                if a in grouped[g] and not np.array_equal(np.asarray(grouped[g][a]).reshape(-1), outs[a].reshape(-1)):
+                    problems.append(f"assemble_shared_inputs: group {g} holds another agent's data under {a}")
+    except ImportError:
+        pass
     return impl, model_ops, problems, ["route", f"route-n{min(len(ids), 12)}", f"route-E{E}", f"route-f{min(f, 2)}",
                                        "route-groups%d" % len(st.shared_agent_ids)]
 
